@@ -153,8 +153,23 @@ func runC01(c *Ctx, r *Report) {
 			if !ok {
 				return false
 			}
+			// an element of the token list: the result of the call that splits the query (a library split or the
+			// module's own splitter), recognised by its []string result computed from parseTerms' query parameter
 			call, ok := ia.X.(*ssa.Call)
-			return ok && calleeName(call.Common()) == "(*regexp.Regexp).Split"
+			if !ok {
+				return false
+			}
+			if sl, isSl := call.Type().Underlying().(*types.Slice); !isSl || !types.Identical(sl.Elem(), types.Typ[types.String]) {
+				return false
+			}
+			for _, a := range call.Call.Args {
+				for w := range backwardSlice(a, func(*ssa.CallCommon) bool { return true }, nil) {
+					if w == ssa.Value(pt.Params[3]) {
+						return true
+					}
+				}
+			}
+			return false
 		}
 		ns := 0
 		eachInstr(pt, func(in ssa.Instruction) {
@@ -200,6 +215,7 @@ func runC01(c *Ctx, r *Report) {
 	c02r5(c, r) // the pre-filter must not hide lines that match through an upper-case letter
 	c03r4(c, r) // case folding tables are only filled for a scheme name Init knows
 	c01r5(c, r)
+	c01r6(c, r)
 	c01r4(c, r)
 	c02r8(c, r) // case and accent folding are the same in every matcher
 	oneSlabPerWorkerShared(c, r)
